@@ -204,6 +204,37 @@ def accesses_of(path, rules, symbols):
                 guards = sorted(x for x in guards if x in symbols)
                 line = text.count("\n", 0, off + a.start()) + 1
                 out.append((path, fname, rule, sym, guards, line))
+    # a type switch `switch x := e.(type) { case *parser.YContext: ... x.Child(). ...`: x is a Y node in that case
+    for m in FUNC.finditer(text):
+        fname = m.group(1)
+        body, off = body_of(text, m.end())
+        for sw in re.finditer(r"switch\s+(\w+)\s*:=\s*[^\n{]*\.\(type\)\s*\{", body):
+            var = sw.group(1)
+            # the cases up to the end of the switch block
+            depth, k = 1, sw.end()
+            while k < len(body) and depth > 0:
+                depth += {"{": 1, "}": -1}.get(body[k], 0); k += 1
+            block = body[sw.end():k]
+            cases = list(re.finditer(r"case\s+\*(?:parser\.)?(\w+)Context\s*:", block))
+            for ci, cm in enumerate(cases):
+                rule = cm.group(1)[0].lower() + cm.group(1)[1:]
+                if rule not in rules: continue
+                end = cases[ci + 1].start() if ci + 1 < len(cases) else len(block)
+                cbody = block[cm.end():end]
+                ifs = if_blocks(cbody)
+                for a2 in re.finditer(r"\b%s\.(\w+)\((\d*)\)\s*\.\s*(\(?)" % re.escape(var), cbody):
+                    acc = a2.group(1)
+                    if acc.startswith("Get") or acc.startswith("All"): continue
+                    sym = sym_of(acc)
+                    if sym not in symbols:
+                        die("%s:%s: accessor %s names no grammar symbol" % (path, fname, acc))
+                    guards = set()
+                    for cond, bs, be, has_ret, cs in ifs:
+                        if bs < a2.start() < be and "||" not in cond:
+                            for g in re.finditer(r"\b%s\.(\w+)\(\d*\)\s*!=\s*nil" % re.escape(var), cond):
+                                guards.add(sym_of(g.group(1)))
+                    line = text.count("\n", 0, off + sw.end() + cm.end() + a2.start()) + 1
+                    out.append((path, fname, rule, sym, sorted(x for x in guards if x in symbols), line))
     # children reached through a type assertion: x.(*parser.YContext).Child().  -- no guard is recognised here
     for m in FUNC.finditer(text):
         fname = m.group(1)
